@@ -296,7 +296,8 @@ func c05(c *core.Ctx, r *core.Report) {
 	})
 
 	rule(r, "C05.R4", "each pool's stop flag is set by a goroutine that first waits on the worker context's Done; idle workers are woken afterwards (condition-variable discipline)", func() {
-		// pools: types of internal/workers with an atomic.Bool field loaded in a worker (go target reaching the runner)
+		// pools: types of internal/workers with an atomic.Bool stop flag loaded in a worker (go target reaching the
+		// runner) — the flag itself, or a small wrapper type around it whose methods forward to the atomic
 		runner, _, _ := iterationRunner(c)
 		flags := map[*types.Var]bool{}
 		for _, fn := range c.AllFuncs {
@@ -304,15 +305,41 @@ func c05(c *core.Ctx, r *core.Report) {
 				continue
 			}
 			for g := range an.ReachSet(fn, nil) {
-				for _, op := range an.AtomicOps([]*ssa.Function{g}) {
-					if op.Op == "Load" && an.IsNamed(op.Field.Type(), "sync/atomic", "Bool") && op.Field.Pkg() != nil && op.Field.Pkg().Path() == workersPkg {
-						flags[op.Field] = true
+				if isFlagWrapper(g) != "" {
+					continue // seen at its call sites
+				}
+				for _, call := range an.AllCalls(g) {
+					if fld, op, _ := flagAccess(call); fld != nil && op == "Load" {
+						flags[fld] = true
 					}
 				}
 			}
 		}
 		if !r.Floor("stop flags read by worker loops", len(flags), 2) {
 			return
+		}
+		// does running fn (a function, or a bound method with receiver recv) store true into fld?
+		var sets func(fn *ssa.Function, recv ssa.Value, fld *types.Var, depth int) bool
+		sets = func(fn *ssa.Function, recv ssa.Value, fld *types.Var, depth int) bool {
+			if fn == nil || depth < 0 {
+				return false
+			}
+			if op := isFlagWrapper(fn); op == "Store" && recv != nil {
+				return an.SameField(an.FieldOfAddr(recv), fld) && flagWrapperStoresTrue(fn)
+			}
+			for g := range an.ReachSet(fn, nil) {
+				if isFlagWrapper(g) != "" {
+					continue
+				}
+				for _, call := range an.AllCalls(g) {
+					if f, op, val := flagAccess(call); f != nil && op == "Store" && an.SameField(f, fld) {
+						if k, ok := val.(*ssa.Const); ok && k.Value != nil && k.Value.String() == "true" {
+							return true
+						}
+					}
+				}
+			}
+			return false
 		}
 		for fld := range flags {
 			key := "stop-flag:" + fld.Name() + "@" + ownerOfFieldType(c, fld)
@@ -321,51 +348,103 @@ func c05(c *core.Ctx, r *core.Report) {
 				if len(an.GoTargetOf(c.AllFuncs, fn)) == 0 {
 					continue
 				}
-				// receive from Done() of a WithCancel-derived context
+				// receive from Done() of a WithCancel-derived context; the context may reach the goroutine through the
+				// function that starts it (a helper handed the context and what to do)
+				starter := fn.Parent()
 				var recv ssa.Instruction
 				an.Instrs(fn, func(in ssa.Instruction) {
 					u, ok := in.(*ssa.UnOp)
 					if !ok || u.Op != token.ARROW {
 						return
 					}
-					if call, ok := an.Strip(u.X).(*ssa.Call); ok && call.Common().IsInvoke() && call.Common().Method.Name() == "Done" {
-						src := an.OutOfGoroutine(c.AllFuncs, call.Common().Value)
-						if ex, isEx := src.(*ssa.Extract); isEx {
-							if wc, isCall := ex.Tuple.(*ssa.Call); isCall && an.IsFunc(an.Callee(wc), "context", "WithCancel") {
-								recv = in
+					call, ok := an.Strip(u.X).(*ssa.Call)
+					if !ok || !call.Common().IsInvoke() || call.Common().Method.Name() != "Done" {
+						return
+					}
+					fromCancel := func(v ssa.Value) bool {
+						ex, isEx := an.Strip(v).(*ssa.Extract)
+						if !isEx {
+							return false
+						}
+						wc, isCall := ex.Tuple.(*ssa.Call)
+						return isCall && an.IsFunc(an.Callee(wc), "context", "WithCancel")
+					}
+					src := an.OutOfGoroutine(c.AllFuncs, call.Common().Value)
+					if fromCancel(src) {
+						recv = in
+						return
+					}
+					if p, isP := an.Strip(src).(*ssa.Parameter); isP && starter != nil && p.Parent() == starter {
+						all := true
+						sites := an.CallSitesOf(c, starter)
+						for _, site := range sites {
+							if i := an.ParamIndex(p); i >= len(site.Common().Args) || !fromCancel(site.Common().Args[i]) {
+								all = false
 							}
+						}
+						if all && len(sites) > 0 {
+							recv = in
 						}
 					}
 				})
 				if recv == nil {
 					continue
 				}
-				// a Store(true) on the flag after it, directly or through callees
+				// a Store(true) on the flag after it, directly, through callees, or through the function value the starter
+				// was handed
 				setsAfter := false
 				an.Instrs(fn, func(in ssa.Instruction) {
 					call, ok := in.(ssa.CallInstruction)
 					if !ok || !an.Dominates(recv, in) {
 						return
 					}
-					check := func(g *ssa.Function) {
-						for _, op := range an.AtomicOps([]*ssa.Function{g}) {
-							if op.Op == "Store" && an.SameField(op.Field, fld) {
-								if k, ok := op.Call.Common().Args[1].(*ssa.Const); ok && k.Value != nil && k.Value.String() == "true" {
-									setsAfter = true
-								}
-							}
+					if f, op, val := flagAccess(call); f != nil && op == "Store" && an.SameField(f, fld) {
+						if k, ok := val.(*ssa.Const); ok && k.Value != nil && k.Value.String() == "true" {
+							setsAfter = true
 						}
+						return
 					}
 					if t := an.Callee(call); t != nil {
-						if t.Pkg != nil && t.Pkg.Pkg.Path() == "sync/atomic" {
-							if op := an.FieldOfAddr(call.Common().Args[0]); an.SameField(op, fld) && t.Name() == "Store" {
-								if k, ok := call.Common().Args[1].(*ssa.Const); ok && k.Value != nil && k.Value.String() == "true" {
-									setsAfter = true
-								}
+						if core.InModule(t) && sets(t, nil, fld, 3) {
+							setsAfter = true
+						}
+						return
+					}
+					// dynamic: a captured function-typed parameter of the starter
+					fv, isFV := an.Strip(call.Common().Value).(*ssa.FreeVar)
+					if !isFV || starter == nil {
+						return
+					}
+					var p *ssa.Parameter
+					switch b := an.FreeVarBinding(fv).(type) {
+					case *ssa.Alloc:
+						if sts := an.StoresTo(b); len(sts) == 1 {
+							p, _ = an.Strip(sts[0].Val).(*ssa.Parameter)
+						}
+					case *ssa.Parameter:
+						p = b
+					}
+					if p == nil || p.Parent() != starter {
+						return
+					}
+					for _, site := range an.CallSitesOf(c, starter) {
+						i := an.ParamIndex(p)
+						if i >= len(site.Common().Args) {
+							continue
+						}
+						switch a := an.Strip(site.Common().Args[i]).(type) {
+						case *ssa.MakeClosure:
+							f, _ := a.Fn.(*ssa.Function)
+							var rv ssa.Value
+							if f != nil && strings.HasPrefix(f.Synthetic, "bound method wrapper") && len(a.Bindings) == 1 {
+								rv = a.Bindings[0]
 							}
-						} else if core.InModule(t) {
-							for g := range an.ReachSet(t, nil) {
-								check(g)
+							if sets(an.Unwrap(f), rv, fld, 3) {
+								setsAfter = true
+							}
+						case *ssa.Function:
+							if sets(a, nil, fld, 3) {
+								setsAfter = true
 							}
 						}
 					}
@@ -792,4 +871,94 @@ func ownerOfFieldType(c *core.Ctx, fld *types.Var) string {
 		}
 	}
 	return "?"
+}
+
+// isFlagWrapper: fn is a one-block method of a module type that performs a single atomic.Bool operation on a field of
+// its own receiver; returns that operation ("Load", "Store", …) or "".
+func isFlagWrapper(fn *ssa.Function) string {
+	if fn == nil || !core.InModule(fn) || fn.Signature.Recv() == nil || len(fn.Blocks) != 1 || len(fn.Params) == 0 {
+		return ""
+	}
+	// a wrapper type is one that other structs of its package hold by value (the pools themselves are not)
+	rt := fn.Signature.Recv().Type()
+	if p, ok := rt.Underlying().(*types.Pointer); ok {
+		rt = p.Elem()
+	}
+	held := false
+	if n, ok := rt.(*types.Named); ok && n.Obj().Pkg() != nil {
+		sc := n.Obj().Pkg().Scope()
+		for _, name := range sc.Names() {
+			tn, isT := sc.Lookup(name).(*types.TypeName)
+			if !isT {
+				continue
+			}
+			if st, isSt := tn.Type().Underlying().(*types.Struct); isSt {
+				for i := 0; i < st.NumFields(); i++ {
+					if types.Identical(st.Field(i).Type(), n) {
+						held = true
+					}
+				}
+			}
+		}
+	}
+	if !held {
+		return ""
+	}
+	op := ""
+	n := 0
+	for _, call := range an.AllCalls(fn) {
+		n++
+		t := an.Callee(call)
+		if t == nil || t.Pkg == nil || t.Pkg.Pkg.Path() != "sync/atomic" || t.Signature.Recv() == nil || !an.IsNamed(t.Signature.Recv().Type(), "sync/atomic", "Bool") {
+			continue
+		}
+		if fa, ok := call.Common().Args[0].(*ssa.FieldAddr); ok && an.Strip(fa.X) == ssa.Value(fn.Params[0]) {
+			op = t.Name()
+		}
+	}
+	if n != 1 {
+		return ""
+	}
+	return op
+}
+
+func flagWrapperStoresTrue(fn *ssa.Function) bool {
+	for _, call := range an.AllCalls(fn) {
+		if len(call.Common().Args) > 1 {
+			if k, ok := call.Common().Args[1].(*ssa.Const); ok && k.Value != nil && k.Value.String() == "true" {
+				return true
+			}
+		}
+	}
+	return false
+}
+
+// flagAccess reads a call as an operation on a stop flag: a method of sync/atomic.Bool on a struct field (the field is
+// the flag), or a call of a wrapper method (isFlagWrapper) on a struct field holding the wrapper (that field is the flag).
+func flagAccess(call ssa.CallInstruction) (*types.Var, string, ssa.Value) {
+	t := an.Callee(call)
+	if t == nil || len(call.Common().Args) == 0 {
+		return nil, "", nil
+	}
+	fld := an.FieldOfAddr(call.Common().Args[0])
+	if fld == nil || fld.Pkg() == nil || fld.Pkg().Path() != workersPkg {
+		return nil, "", nil
+	}
+	if t.Pkg != nil && t.Pkg.Pkg.Path() == "sync/atomic" && t.Signature.Recv() != nil && an.IsNamed(t.Signature.Recv().Type(), "sync/atomic", "Bool") {
+		var val ssa.Value
+		if len(call.Common().Args) > 1 {
+			val = call.Common().Args[1]
+		}
+		return fld, t.Name(), val
+	}
+	if op := isFlagWrapper(t); op != "" {
+		var val ssa.Value
+		for _, inner := range an.AllCalls(t) {
+			if len(inner.Common().Args) > 1 {
+				val = inner.Common().Args[1]
+			}
+		}
+		return fld, op, val
+	}
+	return nil, "", nil
 }
